@@ -7,13 +7,15 @@
 package dtls
 
 import (
-	"sync"
 	"bytes"
 	"context"
 	"crypto/hmac"
 	"encoding/binary"
+	"encoding/json"
 	"fmt"
 	"hash"
+	"os"
+	"sync"
 	"testing"
 	"testing/synctest"
 	"time"
@@ -157,16 +159,19 @@ func c20Hash(c *Conn) func() hash.Hash {
 	return cs.HashFunc()
 }
 
-// c20ChainOK checks, for every installed write generation of `w` and read generation of `r`
-// (w -> r direction), secret(e+1) == Expand-Label(secret(e), "traffic upd") and write == read.
-func c20ChainOK(w, r *Conn) (chain bool, agree bool, gens int) {
+// c20ChainOK checks the w -> r direction: for every write generation of `w` and read generation of
+// `r` that is still installed, secret(e+1) == Expand-Label(secret(e), "traffic upd") whenever both
+// neighbours are installed (chain), the reader's generation of every committed epoch it still holds
+// equals the writer's (agree); gens = generations looked at, missing = epochs 3..current whose
+// generation is no longer installed (writer side, reader side).
+func c20ChainOK(w, r *Conn) (chain bool, agree bool, gens int, missing [2]int) {
 	chain, agree = true, true
 	ws, rs := c20State13(w), c20State13(r)
 	h := c20Hash(w)
 	for e := 3; e <= int(ws.LocalEpoch()); e++ {
 		g, ok := ws.TrafficKeys.Write(uint16(e))
 		if !ok {
-			chain = false
+			missing[0]++
 
 			continue
 		}
@@ -174,30 +179,54 @@ func c20ChainOK(w, r *Conn) (chain bool, agree bool, gens int) {
 		if g.Epoch != uint16(e) || g.Generation != uint64(e-3) {
 			chain = false
 		}
-		if e > 3 {
-			p, okp := ws.TrafficKeys.Write(uint16(e - 1))
-			if !okp || !bytes.Equal(c20ExpandLabel(h, p.Secret, "traffic upd"), g.Secret) {
+		if p, okp := ws.TrafficKeys.Write(uint16(e - 1)); okp && e > 3 {
+			if !bytes.Equal(c20ExpandLabel(h, p.Secret, "traffic upd"), g.Secret) {
 				chain = false
 			}
 		}
 		if e <= int(rs.RemoteEpoch()) {
-			rg, okr := rs.TrafficKeys.Read(uint16(e))
-			if !okr || !bytes.Equal(rg.Secret, g.Secret) || rg.Generation != g.Generation {
-				agree = false
+			if rg, okr := rs.TrafficKeys.Read(uint16(e)); okr {
+				if !bytes.Equal(rg.Secret, g.Secret) || rg.Generation != g.Generation {
+					agree = false
+				}
 			}
 		} else {
 			agree = false
 		}
 	}
-	for e := 4; e <= int(rs.RemoteEpoch()); e++ {
+	for e := 3; e <= int(rs.RemoteEpoch()); e++ {
 		g, ok := rs.TrafficKeys.Read(uint16(e))
-		p, okp := rs.TrafficKeys.Read(uint16(e - 1))
-		if !ok || !okp || !bytes.Equal(c20ExpandLabel(h, p.Secret, "traffic upd"), g.Secret) {
-			chain = false
+		if !ok {
+			missing[1]++
+
+			continue
+		}
+		gens++
+		if p, okp := rs.TrafficKeys.Read(uint16(e - 1)); okp && e > 3 {
+			if !bytes.Equal(c20ExpandLabel(h, p.Secret, "traffic upd"), g.Secret) {
+				chain = false
+			}
 		}
 	}
+	if cur, ok := rs.TrafficKeys.CurrentRead(); !ok || cur.Epoch != rs.RemoteEpoch() {
+		agree = false
+	}
+	if cur, ok := ws.TrafficKeys.CurrentWrite(); !ok || cur.Epoch != ws.LocalEpoch() {
+		agree = false
+	}
 
-	return chain, agree, gens
+	return chain, agree, gens, missing
+}
+
+// c20Retained: does `c` still hold a read generation for `epoch`, authorised by its receive epoch?
+func c20Retained(c *Conn, epoch int) bool {
+	st := c20State13(c)
+	if epoch > int(st.RemoteEpoch()) || epoch < 0 || epoch > 65535 {
+		return false
+	}
+	_, ok := st.TrafficKeys.Read(uint16(epoch))
+
+	return ok
 }
 
 // ---------------------------------------------------------------- crafted records
@@ -259,6 +288,8 @@ type c20Step struct {
 	Errs   []string `json:"errs"` // UpdateKeys / Write calls that returned an error
 	Epochs [4]int   `json:"epochs"`
 	T      int64    `json:"t_ms"`
+	Held   bool     `json:"retained"` // d, x: on arrival the receiver holds an authorised generation for the record's epoch
+	Ahead  int      `json:"ahead"`    // x: generations ahead of the sender's current write generation
 }
 
 type c20Cfg struct {
@@ -276,9 +307,10 @@ type c20Trace struct {
 	Cfg     c20Cfg    `json:"cfg"`
 	Recs    []c20Rec  `json:"recs"`
 	Steps   []c20Step `json:"steps"`
-	Chain   [2]bool   `json:"chain"`  // successor relation holds for every generation (client->server, server->client)
-	Agree   [2]bool   `json:"agree"`  // the receiver's read generation equals the sender's write generation for every committed epoch
+	Chain   [2]bool   `json:"chain"` // successor relation holds for every generation (client->server, server->client)
+	Agree   [2]bool   `json:"agree"` // the receiver's read generation equals the sender's write generation for every committed epoch
 	Gens    [2]int    `json:"gens"`
+	Missing [2][2]int `json:"missing"`       // generations no longer installed: per direction (writer side, reader side)
 	Pending int       `json:"pending_calls"` // UpdateKeys calls that had not returned when the run ended
 	Note    string    `json:"note"`
 }
@@ -486,8 +518,9 @@ func (s *c20Sim) opWrite(side string, n int) {
 func (s *c20Sim) opDeliver(rec int) {
 	r := s.tr.Recs[rec]
 	to := s.lab.other(r.From).Name
+	held := c20Retained(s.lab.peer(to).Conn, r.Epoch)
 	s.lab.Net.deliver(to, r.From, s.raws[rec])
-	st := c20Step{Op: "d", Side: to, Rec: rec, ID: -1}
+	st := c20Step{Op: "d", Side: to, Rec: rec, ID: -1, Held: held}
 	s.collect(&st)
 	s.push(st)
 }
@@ -503,8 +536,9 @@ func (s *c20Sim) opCraft(to string, ahead int, seq uint64, n int) {
 	})
 	s.raws = append(s.raws, raw)
 	rec := len(s.tr.Recs) - 1
+	held := c20Retained(s.lab.peer(to).Conn, epoch)
 	s.lab.Net.deliver(to, from.Name, raw)
-	st := c20Step{Op: "x", Side: to, Rec: rec, ID: n}
+	st := c20Step{Op: "x", Side: to, Rec: rec, ID: n, Held: held, Ahead: ahead}
 	s.collect(&st)
 	s.push(st)
 }
@@ -550,8 +584,8 @@ func (s *c20Sim) pendingCalls() int {
 
 func (s *c20Sim) finish(out *vOut) {
 	cl, sv := s.lab.Client.Conn, s.lab.Server.Conn
-	s.tr.Chain[0], s.tr.Agree[0], s.tr.Gens[0] = c20ChainOK(cl, sv)
-	s.tr.Chain[1], s.tr.Agree[1], s.tr.Gens[1] = c20ChainOK(sv, cl)
+	s.tr.Chain[0], s.tr.Agree[0], s.tr.Gens[0], s.tr.Missing[0] = c20ChainOK(cl, sv)
+	s.tr.Chain[1], s.tr.Agree[1], s.tr.Gens[1], s.tr.Missing[1] = c20ChainOK(sv, cl)
 	s.tr.Pending = s.pendingCalls()
 	out.emit(s.tr)
 	s.lab.close()
@@ -765,9 +799,9 @@ func (g *c20Gen) scenarioEarly() {
 // between); every step's observable output is compared with the model by checks/c20.py.
 func TestVerifC20Trace(t *testing.T) {
 	out := newVOut(t)
-	n := 60
+	n := 240
 	if vIsThorough() {
-		n = 2000
+		n = 4000
 	}
 	for i := 0; i < n; i++ {
 		i := i
@@ -816,26 +850,28 @@ type c20ConcCall struct {
 }
 
 type c20ConcDelivery struct {
-	T   int64 `json:"t_ms"`
-	Rec int   `json:"rec"`
+	T    int64 `json:"t_ms"`
+	Rec  int   `json:"rec"`
+	Held bool  `json:"retained"` // the receiver holds an authorised generation for the record's epoch (sampled after the hand-over was processed)
 }
 
 type c20Conc struct {
-	Kind      string            `json:"kind"`
-	Case      int               `json:"case"`
-	Writers   int               `json:"writers"`
-	Loss      int               `json:"loss"`
-	Recs      []c20Rec          `json:"recs"`      // every post-establishment record in emission order
-	Delivered []c20ConcDelivery `json:"delivered"` // every hand-over to the destination, in order
-	Written   [][2]int          `json:"written"`   // (side, payload) for every Write that returned nil
-	WriteErrs []string          `json:"write_errs"`
-	Reads     [][2]int          `json:"reads"`
-	Calls     []c20ConcCall     `json:"calls"`
-	Unreturned int              `json:"unreturned"`
-	Epochs    [4]int            `json:"epochs"`
-	Chain     [2]bool           `json:"chain"`
-	Agree     [2]bool           `json:"agree"`
-	Unopened  int               `json:"unopened"`
+	Kind       string            `json:"kind"`
+	Case       int               `json:"case"`
+	Writers    int               `json:"writers"`
+	Loss       int               `json:"loss"`
+	Recs       []c20Rec          `json:"recs"`      // every post-establishment record in emission order
+	Delivered  []c20ConcDelivery `json:"delivered"` // every hand-over to the destination, in order
+	Written    [][2]int          `json:"written"`   // (side, payload) for every Write that returned nil
+	WriteErrs  []string          `json:"write_errs"`
+	Reads      [][2]int          `json:"reads"`
+	Calls      []c20ConcCall     `json:"calls"`
+	Unreturned int               `json:"unreturned"`
+	Epochs     [4]int            `json:"epochs"`
+	Chain      [2]bool           `json:"chain"`
+	Agree      [2]bool           `json:"agree"`
+	Missing    [2][2]int         `json:"missing"`
+	Unopened   int               `json:"unopened"`
 }
 
 // TestVerifC20Conc: UpdateKeys on both sides racing with 1-3 writer goroutines per side under a
@@ -843,9 +879,9 @@ type c20Conc struct {
 // statements are evaluated on these runs (goroutine scheduling is not replayed in the model).
 func TestVerifC20Conc(t *testing.T) {
 	out := newVOut(t)
-	n := 12
+	n := 48
 	if vIsThorough() {
-		n = 400
+		n = 800
 	}
 	for i := 0; i < n; i++ {
 		i := i
@@ -854,7 +890,11 @@ func TestVerifC20Conc(t *testing.T) {
 			suite, _ := c20Suite(i)
 			sim := c20Start(t, "conc", suite, 0)
 			lab := sim.lab
-			res := &c20Conc{Kind: "conc", Case: i, Writers: 1 + rng.intn(3), Loss: []int{0, 10, 30, 50}[rng.intn(4)]}
+			res := &c20Conc{
+				Kind: "conc", Case: i, Writers: 1 + rng.intn(3), Loss: []int{0, 10, 30, 50}[rng.intn(4)],
+				Recs: []c20Rec{}, Delivered: []c20ConcDelivery{}, Written: [][2]int{}, WriteErrs: []string{},
+				Reads: [][2]int{}, Calls: []c20ConcCall{},
+			}
 			start := time.Now()
 			var mu sync.Mutex
 			healed := false
@@ -885,7 +925,11 @@ func TestVerifC20Conc(t *testing.T) {
 				}
 			}
 			pump.OnDeliver = func(d vDatagram) {
-				res.Delivered = append(res.Delivered, c20ConcDelivery{T: time.Since(start).Milliseconds(), Rec: dgRec[d.Idx]})
+				to, _ := pump.route(d)
+				res.Delivered = append(res.Delivered, c20ConcDelivery{
+					T: time.Since(start).Milliseconds(), Rec: dgRec[d.Idx],
+					Held: c20Retained(lab.peer(to).Conn, res.Recs[dgRec[d.Idx]].Epoch),
+				})
 			}
 			var wg sync.WaitGroup
 			order := 0
@@ -956,12 +1000,141 @@ func TestVerifC20Conc(t *testing.T) {
 				}
 			}
 			res.Epochs = sim.epochs()
-			var g0, g1 int
-			res.Chain[0], res.Agree[0], g0 = c20ChainOK(lab.Client.Conn, lab.Server.Conn)
-			res.Chain[1], res.Agree[1], g1 = c20ChainOK(lab.Server.Conn, lab.Client.Conn)
-			_, _ = g0, g1
+			res.Chain[0], res.Agree[0], _, res.Missing[0] = c20ChainOK(lab.Client.Conn, lab.Server.Conn)
+			res.Chain[1], res.Agree[1], _, res.Missing[1] = c20ChainOK(lab.Server.Conn, lab.Client.Conn)
+			mu.Lock()
 			out.emit(res)
+			mu.Unlock()
 			lab.close()
+			<-finished // stranded callers return once the connections are closed
 		})
 	}
+}
+
+// TestVerifC20Replay re-executes the step list of a recorded trace (VERIF_C20_REPLAY = path of a JSON
+// object with variant, cfg.suite and steps as written by TestVerifC20Trace / the replay files of
+// checks/c20.py) against the implementation and emits the resulting trace.
+func TestVerifC20Replay(t *testing.T) {
+	path := os.Getenv("VERIF_C20_REPLAY")
+	if path == "" {
+		t.Skip("VERIF_C20_REPLAY not set")
+	}
+	raw, err := os.ReadFile(path)
+	if err != nil {
+		t.Fatal(err)
+	}
+	var in struct {
+		Variant string    `json:"variant"`
+		Case    int       `json:"case"`
+		Cfg     c20Cfg    `json:"cfg"`
+		Recs    []c20Rec  `json:"recs"`
+		Steps   []c20Step `json:"steps"`
+	}
+	if err := json.Unmarshal(raw, &in); err != nil {
+		t.Fatal(err)
+	}
+	out := newVOut(t)
+	vBubble(t, func(t *testing.T) {
+		var suite CipherSuiteID
+		for i := 0; i < 3; i++ {
+			if id, name := c20Suite(i); name == in.Cfg.Suite {
+				suite = id
+			}
+		}
+		sim := c20Start(t, in.Variant, suite, 0)
+		sim.tr.Case = in.Case
+		sim.tr.Cfg.Suite = in.Cfg.Suite
+		sim.tr.Note = "replay"
+		for k, st := range in.Steps {
+			if wait := time.Duration(st.T)*time.Millisecond - time.Since(sim.start); wait > 0 {
+				sim.opTime(wait)
+			}
+			switch st.Op {
+			case "uk":
+				sim.opUpdate(st.Side, st.Req)
+			case "w":
+				sim.opWrite(st.Side, st.ID)
+			case "d":
+				if st.Rec >= len(sim.tr.Recs) {
+					t.Fatalf("step %d delivers record %d but only %d have been emitted in the replay", k, st.Rec, len(sim.tr.Recs))
+				}
+				sim.opDeliver(st.Rec)
+			case "x":
+				seq := uint64(0)
+				if st.Rec >= 0 && st.Rec < len(in.Recs) {
+					seq = in.Recs[st.Rec].Seq
+				}
+				sim.opCraft(st.Side, st.Ahead, seq, st.ID)
+			case "t":
+			}
+		}
+		sim.finish(out)
+	})
+}
+
+// ---------------------------------------------------------------- establishment precondition (informational)
+
+type c20FinalAck struct {
+	Kind        string   `json:"kind"`
+	Dropped     string   `json:"dropped"`
+	ClientErr   string   `json:"client_handshake"`
+	ServerErr   string   `json:"server_handshake"`
+	ServerCalls int      `json:"server_calls_returned"` // of 2: UpdateKeys and Write issued by the server afterwards
+	ClientCalls []string `json:"client_calls"`
+	VirtualS    int64    `json:"virtual_s"`
+	Wire        []string `json:"wire"`
+}
+
+// TestVerifC20FinalAck: C20 presupposes an established DTLS 1.3 connection. This run records what
+// happens to that precondition when exactly one datagram is lost: the server's ACK of the client's
+// Finished, while the NewSessionTicket that follows it arrives. Informational (no C20 clause is about
+// establishment); reported in the evidence and to the lead.
+func TestVerifC20FinalAck(t *testing.T) {
+	out := newVOut(t)
+	vBubble(t, func(t *testing.T) {
+		ccfg, scfg := c20Configs(TLS_AES_128_GCM_SHA256, 0)
+		lab := newLab(t, ccfg, scfg)
+		res := &c20FinalAck{Kind: "finalack", Dropped: "first epoch-3 ACK from the server (ACK of the client Finished)", ClientCalls: []string{}, Wire: []string{}}
+		dropped := false
+		lab.Pump.Policy = func(d vDatagram) (vAction, int) {
+			r, ok := c20Open(lab.peer(d.From).Conn, d.Data)
+			if ok && !dropped && d.From == "server" && r.Kind == "ack" && r.Epoch == 3 {
+				dropped = true
+
+				return vDrop, 0
+			}
+
+			return vPass, 0
+		}
+		lab.Pump.run(lab.bothDone, 300*time.Second)
+		res.ClientErr, res.ServerErr = vErrString(lab.Client.Err), vErrString(lab.Server.Err)
+		lab.Client.startReader()
+		lab.Server.startReader()
+		cdone := make(chan error, 2)
+		sdone := make(chan error, 2)
+		go func() {
+			cdone <- lab.Client.Conn.UpdateKeys(context.Background(), KeyUpdateOptions{RequestPeerUpdate: true})
+		}()
+		go func() { sdone <- lab.Server.Conn.UpdateKeys(context.Background(), KeyUpdateOptions{}) }()
+		synctest.Wait()
+		go func() { _, err := lab.Server.Conn.Write(c20Payload(1)); sdone <- err }()
+		lab.Pump.run(func() bool { return len(sdone) == 2 && len(cdone) == 1 }, 400*time.Second)
+		synctest.Wait()
+		res.ServerCalls = len(sdone)
+		for len(cdone) > 0 {
+			res.ClientCalls = append(res.ClientCalls, vErrString(<-cdone))
+		}
+		res.VirtualS = int64(lab.Net.now() / time.Second)
+		for _, d := range lab.Net.since(0) {
+			r, ok := c20Open(lab.peer(d.From).Conn, d.Data)
+			if ok {
+				res.Wire = append(res.Wire, fmt.Sprintf("#%d t=%v %s epoch=%d seq=%d %s msg=%d acks=%v", d.Idx, d.T, d.From, r.Epoch, r.Seq, r.Kind, r.Msg, r.Acks))
+			} else {
+				res.Wire = append(res.Wire, fmt.Sprintf("#%d t=%v %s len=%d first=0x%02x", d.Idx, d.T, d.From, len(d.Data), d.Data[0]))
+			}
+		}
+		out.emit(res)
+		lab.close()
+		synctest.Wait()
+	})
 }
